@@ -97,7 +97,13 @@ fn gen_so3_bounds(rng: &mut Xo, angular_bias: bool) -> Option<([f64; 4], f64)> {
         }
         // cones narrower than a hemisphere are convex (a sampler that overshoots them is the
         // only way out), wider ones are not (interpolation can leave them)
-        let a = if angular_bias && rng.chance(0.65) { rng.range(0.5 * PI + 0.1, PI - 0.2) } else if angular_bias { rng.range(0.6, 0.5 * PI) } else { rng.range(0.6, PI) };
+        let mut a = if angular_bias && rng.chance(0.65) { rng.range(0.5 * PI + 0.1, PI - 0.2) } else if angular_bias { rng.range(0.6, 0.5 * PI) } else { rng.range(0.6, PI) };
+        // one cone in eight is narrow (0.12 .. 0.5 rad): the library's rejection sampler then needs
+        // hundreds to ten thousand candidates per sample — whatever it does instead of, or when
+        // tired of, rejecting (a direct construction, a cap, a time budget) is exercised here
+        if rng.chance(0.125) {
+            a = rng.log_range(0.12, 0.5);
+        }
         Some((c, a))
     } else {
         None
